@@ -629,6 +629,9 @@ class Watcher(object):
                 delay -= (time.time() - res)
                 if delay < 0:
                     delay = 0
+                elif delay > self.warmup_delay:
+                    # the wall clock was stepped backwards meanwhile
+                    delay = self.warmup_delay
             yield tornado_sleep(delay)
 
     def _get_sockets_fds(self):
